@@ -294,6 +294,61 @@ func c05LeafMixed(sh c05MixedShape, runaway bool) c05Leaf {
 	return l
 }
 
+// "long history": no recursion in the program - an ordinary loop of N steps builds a data structure whose depth grows
+// with N, then ONE observer walks it. Expectation: value or error, never death. Observed under a 4 MB Go stack.
+type c05DeepShape struct {
+	Name  string
+	Prog  string // N = number of steps
+	N     int
+	Deep  bool // the observer's Go recursion grows with N on the code as it is (known findings)
+	Quick bool
+}
+
+var c05DeepShapes = []c05DeepShape{
+	{"replace-chain-through-returned-map.get", "numbers(N).mapReduce({a:-1},(m,i)->{a:i}.replace(x->m)).a", 100000, false, true},
+	{"replace-chain-through-returned-map.get", "numbers(N).mapReduce({a:-1},(m,i)->{a:i}.replace(x->m)).a", 300000, false, true},
+	{"replace-chain-through-receiver.get", "numbers(N).mapReduce({a:-1},(m,i)->m.replace(x->{a:i})).a", 100000, false, true},
+	{"replace-chain-through-returned-map.size", "numbers(N).mapReduce({a:-1},(m,i)->{a:i}.replace(x->m)).size()", 100000, false, true},
+	{"replace-chain-through-returned-map.string", "string(numbers(N).mapReduce({a:-1},(m,i)->{a:i}.replace(x->m))).len()", 100000, false, true},
+	{"replace-chain-through-returned-map.eq", "numbers(N).mapReduce({a:-1},(m,i)->{a:i}.replace(x->m))={a:1}", 100000, false, true},
+	{"replace-chain-through-receiver.size", "numbers(N).mapReduce({a:-1},(m,i)->m.replace(x->{a:i})).size()", 300000, false, false},
+	{"map-map-chain.get", "numbers(N).mapReduce({a:1},(m,i)->m.map((k,v)->v+1)).a", 100000, false, true},
+	{"append-chain.size", "numbers(N).mapReduce([],(l,i)->l.append(i)).size()", 100000, false, true},
+	{"string-concat-chain.len", `numbers(N).mapReduce("",(s,i)->s+"x").len()`, 10000, false, true},
+	{"list-plus-chain-left.size", "numbers(N).mapReduce([],(l,i)->l+[i]).size()", 10000, false, true},
+	{"list-plus-chain-right.sum", "numbers(N).mapReduce([],(l,i)->[i]+l).sum()", 10000, false, false},
+	{"put-chain.size", `numbers(N).mapReduce({},(m,i)->m.put("k"+i,i)).size()`, 1000, false, true},
+	{"put-chain.get", `numbers(N).mapReduce({},(m,i)->m.put("k"+i,i)).k0`, 3000, false, false},
+	{"merge-chain-left.get", `numbers(N).mapReduce({},(m,i)->m+{}.put("k"+i,i)).k0`, 1000, false, true},
+	{"merge-chain-right.size", `numbers(N).mapReduce({},(m,i)->{}.put("k"+i,i)+m).size()`, 1000, false, false},
+	{"lazy-map-chain.first", "numbers(N).mapReduce([1],(l,i)->l.map(e->e+1)).first()", 100000, true, true},
+	{"lazy-skip-chain.first", "numbers(N).mapReduce([1,2],(l,i)->l.skip(0)).first()", 100000, true, true},
+	{"lazy-accept-chain.size", "numbers(N).mapReduce([1,2],(l,i)->l.accept(e->true)).size()", 30000, true, true},
+	{"nested-list.string", "string(numbers(N).mapReduce([],(l,i)->[l])).len()", 100000, true, true},
+	{"nested-map.string", "string(numbers(N).mapReduce({},(m,i)->{a:m})).len()", 100000, true, true},
+	{"nested-list.eq", "let d=numbers(N).mapReduce([],(l,i)->[l]); d=d", 100000, true, true},
+}
+
+func c05LeafDeep(sh c05DeepShape, n int) c05Leaf {
+	depth := 10
+	if sh.Deep {
+		depth = n
+	}
+	l := c05LeafFault("deep-data:"+sh.Name, "", "("+strings.ReplaceAll(sh.Prog, "N", fmt.Sprint(n))+")", fmt.Sprintf("(FDeepData %d 8)", depth))
+	if strings.HasPrefix(sh.Prog, "let ") {
+		l.Prelude, l.Expr = strings.ReplaceAll(sh.Prog[:strings.Index(sh.Prog, ";")+1], "N", fmt.Sprint(n))+" ", strings.TrimSpace(sh.Prog[strings.Index(sh.Prog, ";")+1:])
+	}
+	l.MaxStack, l.D, l.Heavy = c05TinyStack, c05TinyStack/32, true
+	return l
+}
+
+// N nested closures built by a loop and called once: the value stack guard answers
+func c05LeafClosureNest(n int) c05Leaf {
+	l := c05LeafFault("deep-data:closure-nest.call", "", fmt.Sprintf("numbers(%d).mapReduce(x->x,(f,i)->x->f(x)+1)(0)", n), "(FRecShared 0 1 8)")
+	l.Heavy = true
+	return l
+}
+
 const c05RecBound = 12000 // deeper than the 10000 slots of the guard
 
 // the built-ins of value.New() whose documentation mentions a function argument; every one of them must
@@ -504,7 +559,7 @@ var c05Contexts = []c05Ctx{
 
 // fault sources that are faults by construction: host functions, throw, runaway recursion
 func c05SurelyFaulting(l c05Leaf) bool {
-	return strings.HasPrefix(l.Coq, "(LFault ") && !strings.Contains(l.Coq, "FValue") && !strings.Contains(l.Coq, "FRecThrough")
+	return strings.HasPrefix(l.Coq, "(LFault ") && !strings.Contains(l.Coq, "FValue") && !strings.Contains(l.Coq, "FRecThrough") && !strings.Contains(l.Coq, "FDeepData")
 }
 
 func c05CtxByName(n string) c05Ctx {
@@ -535,6 +590,9 @@ func (c c05Case) signature() string {
 	}
 	if strings.HasPrefix(src, "recursion-deep-body") {
 		return src + "/any"
+	}
+	if strings.HasPrefix(src, "deep-data:") {
+		return "deep-data/" + strings.TrimPrefix(src, "deep-data:")
 	}
 	return src + "/" + c.Ctx
 }
@@ -990,6 +1048,18 @@ func cmdC05(seed int64, tier, outDir string) {
 		for i, sh := range c05RecShapes {
 			cases = append(cases, c05Case{c05LeafRecBounded(sh), "top", procs[i%3]})
 		}
+		// data made deep by an ordinary loop, then one observer
+		for i, sh := range c05DeepShapes {
+			if sh.Quick || thorough {
+				cases = append(cases, c05Case{c05LeafDeep(sh, sh.N), "top", procs[i%3]})
+			}
+			if thorough && !sh.Deep && sh.N >= 100000 {
+				for _, n := range []int{1000, 10000, 300000} {
+					cases = append(cases, c05Case{c05LeafDeep(sh, n), "top", procs[(i+1)%3]})
+				}
+			}
+		}
+		cases = append(cases, c05Case{c05LeafClosureNest(20000), "top", 2}, c05Case{c05LeafClosureNest(20000), "try", 16})
 		for i, sh := range c05MixedShapes() {
 			cases = append(cases, c05Case{c05LeafMixed(sh, false), "top", procs[i%3]})
 			if sh.Between == 999 && i%2 == 0 {
